@@ -45,8 +45,9 @@ def gen():
     # concat_nodes / concat_oov_nodes: guard, id of the new node
     nd = F.strip_comments(F.src(NODE))
     for fn in ("concat_nodes", "concat_oov_nodes"):
-        b = F.fn_body(nd, fn, NODE)
-        if not re.search(r"if\s+begin\s*>=\s*end\s*\{\s*return\s+Err\(SudachiError::InvalidRange\(begin,\s*end\)\)", b):
+        # (names given to sub-expressions -- `let last = &path[end - 1];` -- are read as the expression)
+        b = F.inline_lets(F.fn_body(nd, fn, NODE))
+        if not re.search(r"if\s+" + F.cmp_alt("begin", "end", "g", (">=",)) + r"\s*\{\s*return\s+Err\(SudachiError::InvalidRange\(begin,\s*end\)\)", b):
             raise F.FactError("%s: guard `begin >= end` not recognised" % fn)
         if not re.search(r"path\[begin\]\s*=\s*node;\s*path\.drain\(begin\s*\+\s*1\s*\.\.\s*end\);", b):
             raise F.FactError("%s: replacement of path[begin..end] not recognised" % fn)
@@ -63,11 +64,11 @@ def gen():
         out.append("Definition %s_error_returns : N := %s.\nDefinition %s_question_marks : N := %s.\n" % (fn, F.coq_int(n_err), fn, F.coq_int(n_q)))
     if not re.search(r"WordId::INVALID,\s*\)", F.fn_body(nd, "concat_nodes", NODE)):
         raise F.FactError("concat_nodes: new node is no longer given WordId::INVALID")
-    if not re.search(r"let\s+pos_id\s*=\s*path\[begin\]\.word_info\(\)\.pos_id\(\);", F.fn_body(nd, "concat_nodes", NODE)):
+    if not re.search(r"let\s+pos_id\s*=\s*path\[begin\]\.word_info\(\)\.pos_id\(\);", F.inline_lets(F.fn_body(nd, "concat_nodes", NODE))):
         raise F.FactError("concat_nodes: part of speech is no longer taken from path[begin]")
     # katakana loop
     k = F.strip_comments(F.src(KAT))
-    b = F.fn_body(k, "rewrite_gen", KAT)
+    b = F.inline_lets(F.fn_body(k, "rewrite_gen", KAT))
     m = re.search(r"if\s+\(end\s*-\s*begin\)\s*>\s*(\d+)\s*\{\s*path\s*=\s*concat_oov_nodes\(path,\s*begin,\s*end,\s*self\.oov_pos_id\)\?;\s*i\s*=\s*begin\s*\+\s*(\d+);\s*\}\s*i\s*\+=\s*(\d+);", b)
     if not m:
         raise F.FactError("join_katakana_oov::rewrite_gen: merge step not recognised")
@@ -77,7 +78,7 @@ def gen():
     if not re.search(r"if\s+!\(node\.is_oov\(\)\s*\|\|\s*self\.is_shorter\(node\)\)\s*\|\|\s*!self\.is_katakana_node\(text,\s*node\)", b):
         raise F.FactError("join_katakana_oov::rewrite_gen: trigger condition not recognised")
     b2 = F.fn_body(k, "is_shorter", KAT)
-    if not re.search(r"node\.num_codepts\(\)\s*<\s*self\.min_length", b2):
+    if not re.search(F.cmp_alt(r"node\.num_codepts\(\)", r"self\.min_length", "sh", ("<",)), b2):
         raise F.FactError("is_shorter shape not recognised")
     # numeric loop
     n = F.strip_comments(F.src(NUM))
@@ -91,17 +92,25 @@ def gen():
     g1 = re.search(r"if\s+parser\.error_state\s*==\s*numeric_parser::Error::COMMA\s*&&\s*comma_as_digit\s*\{\s*comma_as_digit\s*=\s*false;\s*i\s*=\s*begin_idx\s*-\s*1;\s*\}\s*else\s+if\s+parser\.error_state\s*==\s*numeric_parser::Error::POINT\s*&&\s*period_as_digit\s*\{\s*period_as_digit\s*=\s*false;\s*i\s*=\s*begin_idx\s*-\s*1;\s*\}", b)
     g0 = re.search(r"if\s+parser\.error_state\s*==\s*numeric_parser::Error::COMMA\s*\{\s*comma_as_digit\s*=\s*false;\s*i\s*=\s*begin_idx\s*-\s*1;\s*\}\s*else\s+if\s+parser\.error_state\s*==\s*numeric_parser::Error::POINT\s*\{\s*period_as_digit\s*=\s*false;\s*i\s*=\s*begin_idx\s*-\s*1;\s*\}", b)
     if not g1 and not g0:
+        # the same decision as a `match parser.error_state { COMMA [if flag] => { .. } POINT [if flag] => { .. } _ => {} }`
+        arm = r"numeric_parser::Error::%s\s*%s=>\s*\{\s*%s\s*=\s*false;\s*i\s*=\s*begin_idx\s*-\s*1;\s*\}\s*,?\s*"
+        head = r"match\s+parser\.error_state\s*\{\s*"
+        tail = r"_\s*=>\s*(?:\{\s*\}|\(\))\s*,?\s*\}"
+        g1 = re.search(head + arm % ("COMMA", r"if\s+comma_as_digit\s*", "comma_as_digit") + arm % ("POINT", r"if\s+period_as_digit\s*", "period_as_digit") + tail, b)
+        g0 = re.search(head + arm % ("COMMA", "", "comma_as_digit") + arm % ("POINT", "", "period_as_digit") + tail, b)
+    if not g1 and not g0:
         raise F.FactError("join_numeric::rewrite_gen: restart after a separator error not recognised")
     out.append("Definition restart_requires_flag : bool := %s.\n" % ("true" if g1 else "false"))
-    c = F.fn_body(n, "concat", NUM)
-    ms = re.findall(r"end\s*-\s*begin\s*>\s*(\d+)", c)
+    c = F.inline_lets(F.fn_body(n, "concat", NUM))
+    ms = re.findall(r"\(?end\s*-\s*begin\)?\s*>\s*(\d+)", c)
     if len(ms) != 2 or ms[0] != ms[1]:
         raise F.FactError("JoinNumericPlugin::concat: merge thresholds not recognised")
     out.append("Definition num_merge_above : N := %s.\n" % F.coq_int(int(ms[0])))
-    if not re.search(r"if\s+word_info\.pos_id\(\)\s*!=\s*self\.numeric_pos_id\s*\{\s*return\s+Ok\(path\);", c):
+    guard = r"if\s+" + F.cmp_alt(r"word_info\.pos_id\(\)", r"self\.numeric_pos_id", "pos", ("!=",)) + r"\s*\{\s*return\s+Ok\(path\);\s*\}"
+    if not re.search(guard, c):
         raise F.FactError("JoinNumericPlugin::concat: part-of-speech guard not recognised")
     # the guard protects BOTH branches: it has to come before the enable_normalize test
-    if not re.search(r"^\s*let\s+word_info\s*=\s*path\[begin\]\.word_info\(\);\s*if\s+word_info\.pos_id\(\)\s*!=\s*self\.numeric_pos_id\s*\{\s*return\s+Ok\(path\);\s*\}\s*if\s+self\.enable_normalize\s*\{", c):
+    if not re.search(r"^\s*let\s+word_info\s*=\s*path\[begin\]\.word_info\(\);\s*" + guard.replace("(?P<pos>", "(?P<pos2>").replace("(?P<pos_r>", "(?P<pos2_r>") + r"\s*if\s+self\.enable_normalize\s*\{", c):
         raise F.FactError("JoinNumericPlugin::concat: the part-of-speech guard no longer precedes the enable_normalize branch")
     # JoinNumericPlugin settings: what enable_normalize is when the key `enableNormalize` is ABSENT from the settings
     # (documented default: normalisation on).  Both spellings are read: Option<bool> + unwrap_or(X), or a plain bool with a
